@@ -426,6 +426,12 @@ func verifC08Combos() []verifC08Combo {
 				}
 			}
 		}
+		// values around a coincidence an encoder might exploit: a compressed blob whose ciphertext length
+		// equals the ciphertext length of its plaintext (length = uncompressed length + 32) and its neighbours
+		ov := uint(crypto.CiphertextLength(0))
+		for _, lu := range [][2]uint{{1000 + ov, 1000}, {1000 + ov, 1001}, {1000 + ov, 999}, {1 + ov, 1}, {ov, 0}, {ov + 5, ov + 5}} {
+			c = append(c, verifC08Combo{typ, 17, lu[0], lu[1]})
+		}
 	}
 	return c
 }
